@@ -201,7 +201,8 @@ def apply_ops(rec, ops, soft=False):
             if first is None:
                 continue
             # (worker processes run many histories: without a 'set' in this history the loaded backend is whatever get_backend() reports)
-            target = (model.get(name) or h.get_backend()) if op[2] == "any" else first
+            # (derived and wrapped hashers share their parent's backend by design, so what is loaded is read from get_backend(), not from this history)
+            target = h.get_backend() if op[2] == "any" else first
             st, r = call(h.set_backend, op[2])
             if st == "err" or h.get_backend() != target:
                 rec.fail(f"C03/machine/set-{op[2]}/{name}", f"set_backend({op[2]!r}) does not select the documented backend", "machine", {"ops": ops[: i + 1]}, repr(r) if st == "err" else h.get_backend(), target, soft=soft)
